@@ -9,6 +9,7 @@ import (
 	"fmt"
 	"math/rand"
 	"os"
+	"regexp"
 	"runtime"
 	"sort"
 	"strings"
@@ -85,6 +86,24 @@ type linEvent struct {
 
 func cmdTriple(ck int) (string, string, string) { return "", "srv", fmt.Sprint(ck) }
 
+// dumpedTime reads an expiration as DebugDump prints it. shaped: the text IS a timestamp of the shape
+// DebugDump uses (so a value that does not parse -- a five-digit year -- is a garbage VALUE); when it
+// is not even shaped like one, the dump's FORMAT is not the one the harness knows, which says nothing
+// about torn reads (counted as dump-format-unknown, and the model comparison of the dump shows it).
+var reDumpStamp = regexp.MustCompile(`\A[+-]?[0-9]{4,}-[0-9]{2}-[0-9]{2}T`)
+var dumpFormatUnknown atomic.Int64
+
+var dumpStampsRead atomic.Int64
+
+func dumpedTime(s string) (t time.Time, ok, shaped bool) {
+	t, err := time.Parse(time.RFC3339Nano, s)
+	shaped = reDumpStamp.MatchString(s)
+	if shaped {
+		dumpStampsRead.Add(1)
+	}
+	return t, err == nil, shaped
+}
+
 // classOfTime: which class a dumped expiration belongs to; "" if it is not a plausible value
 func classOfTime(s string, now time.Time) string {
 	if s == "never" {
@@ -123,7 +142,13 @@ func parseDump(d string, now time.Time) (res string, torn string) {
 			}
 			cl := classOfTime(f["exp"], now)
 			if cl == "" {
-				torn = l
+				// a torn read shows as a timestamp no entry ever had; a line without `exp=` or with a
+				// value that is no timestamp at all is a dump FORMAT the harness does not know
+				if _, _, shaped := dumpedTime(f["exp"]); shaped {
+					torn = l
+				} else {
+					dumpFormatUnknown.Add(1)
+				}
 				cl = "garbage"
 			}
 			ss = append(ss, fmt.Sprintf("%s:%s", strings.TrimPrefix(f["id"], "K"), cl))
@@ -964,8 +989,10 @@ func wlCacheTorn(c *Ctx, out *raceWorkerOut) {
 						for _, kv := range strings.Fields(l) {
 							if strings.HasPrefix(kv, "exp=") && kv != "exp=never" {
 								atomic.AddInt64(&reads, 1)
-								t, err := time.Parse(time.RFC3339Nano, kv[4:])
-								if err != nil || !plausible(t) {
+								t, ok, shaped := dumpedTime(kv[4:])
+								if !shaped {
+									dumpFormatUnknown.Add(1) // not a timestamp of the known shape: format, not value
+								} else if !ok || !plausible(t) {
 									torn.Store("DebugDump: " + l)
 								}
 							}
